@@ -56,6 +56,56 @@ fn mentions(n: &Node, out: &mut BTreeSet<String>) {
     }
 }
 
+/// Accessor observations for the arity family (C17).
+fn acc_code(_s: &GSpec, g: &Grammar, ri: usize, ty1: &str, out: &mut String) {
+    let body = &g.rules[ri].body;
+    let _ = writeln!(out, "            acc: Some({{ fn run<'i>(req: &::obs::Req<'i>) -> Option<::obs::AccObs> {{");
+    let _ = writeln!(out, "                use t::generics;");
+    let _ = writeln!(out, "                let node: {} = ::obs::parse_req::<'i, t::Rule, {}>(req)?;", ty1, ty1);
+    let _ = writeln!(out, "                let c = ::std::ops::Deref::deref(&node);");
+    let _ = writeln!(out, "                let mut o = ::obs::AccObs::default();");
+    match &body.ex {
+        Ex::Choice(alts) => {
+            let n = alts.len();
+            let _ = writeln!(out, "                o.kind = \"choice\";");
+            let acc: Vec<String> = (0..n).map(|i| format!("c._{}().map(|x| ::obs::sp(&x.span))", i)).collect();
+            let _ = writeln!(out, "                o.accessors = vec![{}];", acc.join(", "));
+            let mut chain = String::from("c.if_then(|_| 0usize)");
+            for i in 1..n - 1 {
+                chain.push_str(&format!(".else_if(|_| {}usize)", i));
+            }
+            chain.push_str(&format!(".else_then(|_| {}usize)", n - 1));
+            let _ = writeln!(out, "                o.chain = Some({});", chain);
+            let arms: Vec<String> = (0..n).map(|i| format!("x{} => {{ let _ = x{}; {}usize }}", i, i, i)).collect();
+            let _ = writeln!(out, "                o.match_choices = Some(::pest_typed_derive::match_choices!( c {{ {} }} ));", arms.join(" "));
+        }
+        Ex::Seq(items) => {
+            let n = items.len();
+            let _ = writeln!(out, "                o.kind = \"seq\";");
+            let gm: Vec<String> = (0..n).map(|i| format!("::obs::sp(&m.{}.span)", i)).collect();
+            let _ = writeln!(out, "                {{ let m = c.get_matched(); o.get_matched = vec![{}]; }}", gm.join(", "));
+            let _ = writeln!(out, "                {{ let m = c.as_ref(); o.as_ref = vec![{}]; }}", gm.join(", "));
+            let _ = writeln!(out, "                {{ let m = c.clone().into_matched(); o.into_matched = vec![{}]; }}", gm.join(", "));
+            let ga: Vec<String> = (0..n).map(|i| format!("::obs::sp(&a.{}.matched.span)", i)).collect();
+            let sk: Vec<String> = (0..n).map(|i| format!("::obs::tok_spans::<t::Rule, _>(&a.{}.skipped)", i)).collect();
+            let _ = writeln!(out, "                {{ let a = c.get_all(); o.get_all_matched = vec![{}]; o.skipped = vec![{}]; }}", ga.join(", "), sk.join(", "));
+        }
+        Ex::Rep(inner) => {
+            let _ = writeln!(out, "                o.kind = \"rep\";");
+            let span_of = match &inner.ex {
+                Ex::Seq(v) => format!("(x.get_matched().0.span.start(), x.get_matched().{}.span.end())", v.len() - 1),
+                _ => "::obs::sp(&x.span)".to_string(),
+            };
+            let _ = writeln!(out, "                o.iter_matched = c.iter_matched().map(|x| {}).collect();", span_of);
+            let _ = writeln!(out, "                o.into_iter_matched = c.clone().into_iter_matched().map(|x| {}).collect();", span_of);
+            let _ = writeln!(out, "                o.iter_all_matched = c.iter_all().map(|y| {{ let x = &y.matched; {} }}).collect();", span_of);
+            let _ = writeln!(out, "                o.skipped = c.iter_all().map(|y| ::obs::tok_spans::<t::Rule, _>(&y.skipped)).collect();");
+        }
+        _ => {}
+    }
+    let _ = writeln!(out, "                Some(o) }} run }}),");
+}
+
 fn grammar_module(s: &GSpec, out: &mut String) {
     let src = s.src();
     let g = Grammar::load(&src).expect("validated");
@@ -67,13 +117,17 @@ fn grammar_module(s: &GSpec, out: &mut String) {
     let _ = writeln!(out, "        #[derive(::pest_typed_derive::TypedParser)]");
     let _ = writeln!(out, "        #[grammar_inline = {}]", raw(&src));
     if s.options.is_empty() {
-        let _ = writeln!(out, "        #[emit_rule_reference]");
+        if s.getters {
+            let _ = writeln!(out, "        #[emit_rule_reference]");
+        }
     } else {
         for o in &s.options {
             let _ = writeln!(out, "        #[{}]", o);
         }
     }
-    let _ = writeln!(out, "        #[no_warnings]");
+    if !s.options.iter().any(|o| o.starts_with("no_warnings")) {
+        let _ = writeln!(out, "        #[no_warnings]");
+    }
     let _ = writeln!(out, "        pub struct P;");
     let _ = writeln!(out, "    }}");
     // pest parser with wrappers
@@ -90,12 +144,12 @@ fn grammar_module(s: &GSpec, out: &mut String) {
     let _ = writeln!(out, "        pub struct P;");
     let _ = writeln!(out, "    }}");
     // rule id maps
-    let _ = writeln!(out, "    fn tid(r: t::Rule) -> u16 {{ match r {{ t::Rule::EOI => 0,");
+    let _ = writeln!(out, "    fn tid(rule__: t::Rule) -> u16 {{ match rule__ {{ t::Rule::EOI => 0,");
     for (i, r) in s.rules.iter().enumerate() {
         let _ = writeln!(out, "        t::Rule::r#{} => {},", r.name, i + 1);
     }
     let _ = writeln!(out, "    }} }}");
-    let _ = writeln!(out, "    fn pid(r: p::Rule) -> u16 {{ match r {{");
+    let _ = writeln!(out, "    fn pid(rule__: p::Rule) -> u16 {{ match rule__ {{");
     if uses_builtin(&g, "EOI") {
         let _ = writeln!(out, "        p::Rule::EOI => 0,");
     }
@@ -126,7 +180,7 @@ fn grammar_module(s: &GSpec, out: &mut String) {
     for (ri, r) in s.rules.iter().enumerate() {
         if !r.entry {
             // non-entry rules still need a slot so that rule indices coincide with the grammar
-            let _ = writeln!(out, "        rules.push(::obs::RuleEntry {{ name: {:?}, typed: ::obs::no_typed, compare: None, tree: None, getters: None, pest: ::obs::no_pest, pest_atomic: None, entry: false }});", r.name);
+            let _ = writeln!(out, "        rules.push(::obs::RuleEntry {{ name: {:?}, typed: ::obs::no_typed, compare: None, tree: None, getters: None, acc: None, pest: ::obs::no_pest, pest_atomic: None, entry: false }});", r.name);
             continue;
         }
         let n = &r.name;
@@ -171,6 +225,11 @@ fn grammar_module(s: &GSpec, out: &mut String) {
         } else {
             let _ = writeln!(out, "            getters: None,");
         }
+        if s.acc && ["c", "ca", "s", "sx", "r", "rs"].contains(&n.as_str()) {
+            acc_code(s, &g, ri, &ty1, out);
+        } else {
+            let _ = writeln!(out, "            acc: None,");
+        }
         if s.no_pest {
             let _ = writeln!(out, "            pest: ::obs::no_pest, pest_atomic: None,");
         } else {
@@ -196,6 +255,15 @@ fn grammar_module(s: &GSpec, out: &mut String) {
     let _ = writeln!(out, "            id: {:?}, family: {:?}, src: {}, options: {:?}, base_id: {:?},", s.id, s.family, raw(&src), s.options.join(" "), s.base_id);
     let _ = writeln!(out, "            alphabet: {:?}, max_len: {}, max_len_thorough: {},", s.alphabet, s.max_len, s.max_len_thorough);
     let _ = writeln!(out, "            init_alphabet: &[{}], init_depth: {}, all_forms: {},", init.join(", "), s.init_depth, s.all_forms);
+    match &s.inputs {
+        None => {
+            let _ = writeln!(out, "            inputs: None,");
+        }
+        Some(list) => {
+            let items: Vec<String> = list.iter().map(|x| format!("{:?}", x)).collect();
+            let _ = writeln!(out, "            inputs: Some(&[{}]),", items.join(", "));
+        }
+    }
     let _ = writeln!(out, "            rules,");
     let _ = writeln!(out, "        }}");
     let _ = writeln!(out, "    }}");
